@@ -18,7 +18,8 @@ RULE = (
     'exhaustive per dataset and curve in the thorough tier; the quick tier '
     'caps the sweep at 24 evenly spread levels per curve), passed on the command line as '
     'repr(k*step) and as the exact decimal product (e.g. -37.9); off-grid '
-    'references (k+f)*step with f in {0.1 .. 0.9}; no reference. Both `rise '
+    'references (k+f)*step with f in {0.1 .. 0.9} and, at the level farthest '
+    'from 0 mm, f = 0.01 and -0.002; no reference. Both `rise '
     '-r` and `recession -r`, each on a fresh copy of the classified file. '
     'Oracle: on-grid => the command succeeds, the master curve computed by '
     'the harness from the interval tables (keyed by zeta_number) is 0 at '
@@ -141,8 +142,12 @@ def check(case):
             shutil.copyfile(base, wf.db)
             before = _dump(wf.db)
             ks = sorted(plain)
-            for i, f in enumerate(case['fractions']):
-                k = ks[(i * 7) % len(ks)]
+            far = max(ks, key=abs)  # the level farthest from 0 mm
+            trials = [(ks[(i * 7) % len(ks)], f)
+                      for i, f in enumerate(case['fractions'])]
+            # clearly off the grid, but by little: 1% and 0.2% of a step
+            trials += [(far, 0.01), (far, -0.002)]
+            for k, f in trials:
                 text = repr((k + f) * h)
                 try:
                     run(text)
